@@ -57,6 +57,11 @@ func (c *Client) PublishDiagnostics(_ context.Context, p *protocol.PublishDiagno
 	}
 	c.mu.Lock()
 	c.Log = append(c.Log, Published{URI: string(p.URI), JSON: string(b)})
+	if len(c.Log) > 4096 {
+		// long-lived sessions (input enumerations) only ever ask for the last
+		// notification; keep the log bounded
+		c.Log = append(c.Log[:0:0], c.Log[len(c.Log)-1024:]...)
+	}
 	c.mu.Unlock()
 	return nil
 }
